@@ -41,10 +41,10 @@ CHECK_DEADLOCK FALSE
 
 TR_CONSTS = """SPECIFICATION TSpec
 CONSTANTS
-  NAdd <- BigAdd
-  NSub <- BigSub
-  NLt <- BigLt
-  NOf <- BigOf
+  NAdd <- DigAdd
+  NSub <- DigSub
+  NLt <- DigLt
+  NOf <- DigOf
   NCap <- BigCap32
   Slots <- TSlots
   EnvChoices = {}
@@ -165,6 +165,8 @@ class LinRecorder:
         self.emit({"ev": "update_ngram", "s": s + 1, "keys": [kb(k) for k in keys], "n": n})
 
     def merge(self, s, t):
+        if int(self.slots[s].n_added_records[0]) + int(self.slots[t].n_added_records[0]) >= 2**62:
+            return                       # uint64 bookkeeping would wrap: outside every property's range
         try:
             self.slots[s].merge(self.slots[t])
         except TypeError as exc:
